@@ -27,6 +27,22 @@ var missingNative = map[string]int{}
 
 func externalCall(caller *frame, pos token.Pos, fn *ssa.Function, args []Val) (Val, bool) {
 	name := fn.String()
+	if strings.HasPrefix(name, "slices.overlaps[") {
+		// pointer arithmetic on the backing arrays: decide by cell identity
+		a, _ := args[0].([]Val)
+		b, _ := args[1].([]Val)
+		if len(a) == 0 || len(b) == 0 {
+			return false, true
+		}
+		for i := range a {
+			for j := range b {
+				if &a[i] == &b[j] {
+					return true, true
+				}
+			}
+		}
+		return false, true
+	}
 	if len(overrides) > 0 {
 		if to, ok := overrides[name]; ok {
 			return callSSA(caller, pos, to, args, nil), true
